@@ -401,7 +401,7 @@ class C05Machine(Machine):
                 self.probe("start_from_subconverter")
             else:
                 conv = Converter([], delimiter=delim)
-        except (ValueError, NotImplementedError):
+        except Exception:  # noqa: BLE001
             # a start state that cannot be built (e.g. a bridging chain) is not the
             # business of this property: fall back to the empty converter
             self.event("start_failed_fallback_empty")
@@ -573,7 +573,11 @@ class C05Machine(Machine):
             t = target.prefix
             bad = []
             for p in sorted(submitted.all_prefixes()):
-                rec = conv.get_record(p)
+                try:
+                    rec = conv.get_record(p)
+                except Exception as e:  # noqa: BLE001
+                    bad.append(["get_record", p, "raised " + type(e).__name__, t])
+                    continue
                 if rec is None or rec.prefix != t:
                     bad.append(["get_record", p, None if rec is None else rec.prefix, t])
                 if getattr(conv, "synonym_to_prefix", {}).get(p) != t:
@@ -583,7 +587,11 @@ class C05Machine(Machine):
             for u in sorted(submitted.all_uri_prefixes()):
                 if conv.reverse_prefix_map.get(u) != t:
                     bad.append(["reverse_prefix_map", u, conv.reverse_prefix_map.get(u), t])
-                ref = conv.parse_uri(u, return_none=True)
+                try:
+                    ref = conv.parse_uri(u, return_none=True)
+                except Exception as e:  # noqa: BLE001
+                    bad.append(["parse_uri", u, "raised " + type(e).__name__, t])
+                    continue
                 if ref is None or ref[0] != t or ref[1] != "":
                     bad.append(["parse_uri", u, None if ref is None else list(ref), t])
             if bad:
